@@ -298,3 +298,7 @@ impl<DCID: EncoderValue, Payload: PacketPayloadEncoder, K: OneRttKey, H: OneRttH
         &mut self.payload
     }
 }
+
+#[cfg(all(aws_s2n_quic_verif, test))]
+#[path = "/verif/harness/core/packet_short.rs"]
+mod verif;
